@@ -5,6 +5,8 @@ package main
 
 import (
 	"fmt"
+	"math"
+	"strings"
 
 	"github.com/deadsy/sdfx/sdf"
 	v2 "github.com/deadsy/sdfx/vec/v2"
@@ -84,9 +86,49 @@ func (lw *leafWrapper) w2(s sdf.SDF2) sdf.SDF2 {
 }
 
 var model3Names = []string{"sphere-box", "csg", "extrude-poly", "screw", "extrude-bezier", "cache-extrude", "revolve", "array"}
+
+// models that also exist in a second state reached through a setter
+var model3Variants = []string{"sphere-box+blend", "extrude-poly+twist"}
 var model2Names = []string{"poly", "bezier", "circle-box", "gear-ish", "cache-poly"}
 
+// applyVariant puts a (possibly shared) model object into the state its name
+// asks for, through the library's own setters: "sphere-box+blend" is the
+// sphere-box union with a smooth minimum, "extrude-poly+twist" the extrusion
+// with a twist. The plain name resets the object.
+func applyVariant(base string, variant string, s sdf.SDF3) {
+	switch base {
+	case "sphere-box":
+		if u, ok := s.(*sdf.UnionSDF3); ok {
+			if variant == "blend" {
+				u.SetMin(sdf.PolyMin(1.5))
+			} else {
+				u.SetMin(math.Min)
+			}
+		}
+	case "extrude-poly":
+		if e, ok := s.(*sdf.ExtrudeSDF3); ok {
+			if variant == "twist" {
+				e.SetExtrude(sdf.TwistExtrude(6, sdf.DtoR(50)))
+			} else {
+				e.SetExtrude(sdf.NormalExtrude)
+			}
+		}
+	}
+}
+
+func splitVariant(name string) (base, variant string) {
+	if i := strings.IndexByte(name, '+'); i >= 0 {
+		return name[:i], name[i+1:]
+	}
+	return name, ""
+}
+
 func buildModel3(name string, lw *leafWrapper) sdf.SDF3 {
+	if base, variant := splitVariant(name); variant != "" {
+		s := buildModel3(base, lw)
+		applyVariant(base, variant, s)
+		return s
+	}
 	switch name {
 	case "sphere-box":
 		a := lw.w3(must3(sdf.Sphere3D(5)))
